@@ -5,5 +5,6 @@ CONSTANTS
   T = 2
   DbIds = {"com", "x.com", "w.y.com", "a.x.com", "io"}
   EmitOn = TRUE
+  ImplOnly = TRUE
 VIEW GraphView
-INVARIANTS TypeOK CacheTransparent
+INVARIANTS TypeOK CacheTransparent ImplAdmissible
